@@ -318,11 +318,10 @@ def _c14_jobs(tier):
         sh("ts_align", 3, "470001", 6)
         sh("ts_check", 3, "470001", 7)
     else:
-        sh("ts_sync", 12, "470001", 8)
-        sh("ts_sync", 8, "4700", 10, 9)
-        sh("ts_align", 8, "470001", 7)
-        sh("ts_align", 4, "4700", 9, 8)
-        sh("ts_check", 8, "470001", 8)
+        sh("ts_sync", 16, "470001", 8)
+        sh("ts_sync", 4, "4700", 9, 9)
+        sh("ts_align", 6, "470001", 7)
+        sh("ts_check", 6, "470001", 8)
     return jobs
 
 CHECKS["C14"] = {
@@ -333,7 +332,7 @@ CHECKS["C14"] = {
     "jobs": {"quick": _c14_jobs("quick"), "thorough": _c14_jobs("thorough")},
     "rule": "state = one (stream, configuration); transition = one cutting/variant of it run on the real pipe; non-trivial = runs that produced at least one output unit",
     "bounds": {"quick": "ts_sync/ts_check: all streams of length <= 7 over 3 symbols; ts_align <= 6; aggregate <= 9, chunk <= 10 octets; all cuttings, 2-segment chunks, one empty buffer at every position, discontinuity at every chunk (ts_sync)",
-               "thorough": "ts_sync/ts_check <= 8 (3 symbols) and ts_sync <= 10 (2 symbols); ts_align <= 7 / 9; aggregate <= 12, chunk <= 13"},
+               "thorough": "ts_sync/ts_check <= 8 (3 symbols) and ts_sync = 9 (2 symbols); ts_align <= 7; aggregate <= 12, chunk <= 13"},
     "assumptions": DEFAULT_ASSUME + ["the reference synchroniser follows the documented mechanism (N sync octets one packet apart; at release, while locked, whole packets starting with the sync octet)"],
     "job_timeout": {"quick": 200, "thorough": 1200},
 }
@@ -343,19 +342,27 @@ CAT_ROWS = ["skip>htons", "setattr>delay>idem", "idem", "skip", "htons", "delay"
             "buffer", "rate_limit", "qsink", "agg", "chunk", "ts_sync", "ts_check", "ts_align"]
 CAT_HEAVY = {"buffer": 1, "setattr>delay>idem": 1}
 
+C20_HEAVY = {"rate_limit": 1, "ts_sync": 1, "time_limit": 1, "qsink": 1}   # two instances per history
+
 def _cat_jobs(oracle, tier, rows=CAT_ROWS, pools=(0, 2)):
     q = tier == "quick"
     jobs = []
     for r in rows:
-        d = (5 if q else 6) - CAT_HEAVY.get(r, 0)
-        for pool in pools:
-            jobs.append(("pipex_cat", ["--row", r, "--oracle", oracle, "--pool", pool, "--depth", d, "--deadline", 75 if q else 840]))
+        d = (5 if q else 6) - CAT_HEAVY.get(r, 0) - (C20_HEAVY.get(r, 0) if oracle == "C20" else 0)
+        # (pool, who provides managers: 0 the probes / 1 the sinks with shared managers, depth)
+        if q:
+            axes = [(pools[0], 0, d)] + [(p, 1, d - 1) for p in pools[1:]]
+        else:
+            axes = [(pools[0], 0, d)] + [(p, 1, d) for p in pools[1:]] + [(pools[0], 1, d - 1)] + [(p, 0, d - 1) for p in pools[1:]]
+        for (pool, prov, depth) in axes:
+            jobs.append(("pipex_cat", ["--row", r, "--oracle", oracle, "--pool", pool, "--prov", prov, "--depth", depth, "--deadline", 75 if q else 840]))
     return jobs
 
-_CAT_BOUNDS = {"quick": "22 catalogue rows (20 pipes + 2 chains) x pool depth {0,2}: every sequence of up to 5 operations (4 for buffer and the 3-pipe chain) over the row's alphabet "
-                        "(set_flow_def F1/F2/foreign, 4 input shapes incl. empty and 2-segment buffers, set_output S0/S1(rejecting)/NULL, sink answer toggle, flush, "
-                        "every option setter x 3-4 values, subpipe alloc/set_output/release, pump dispatch, release), followed by release of everything and a run of the event loop to quiescence",
-               "thorough": "same alphabet, one operation deeper"}
+_CAT_BOUNDS = {"quick": "22 catalogue rows (20 pipes + 2 chains): every sequence of up to 5 operations (4 for buffer and the 3-pipe chain) with pool depth 0 and managers provided by the probes, and up to 4 (3) operations with pool depth 2 and managers provided by the sinks (shared managers), over the row's alphabet "
+                        "(set_flow_def F1/F2/foreign, 5 input shapes incl. empty, 3+2-segment and shared-segment buffers, set_output S0/S1(rejecting)/NULL, sink answer toggle, flush, "
+                        "every option setter x 3-4 values, subpipe alloc/set_output/release, pump dispatch, an upstream request whose answer makes the upstream push a buffer, "
+                        "a probe that tears the subpipes down on source_end, release), followed by release of everything and a run of the event loop to quiescence",
+               "thorough": "same alphabet, one operation deeper, all four (pool, provider) combinations"}
 _CAT_NOTE = ("Pipe-private state is not readable from outside, so histories are not merged: the full tree is enumerated up to the depth. "
              "Catalogue: idem skip htons delay setattr setflowdef probe_uref match_attr null dup(+2 output subpipes) time_limit genaux buffer rate_limit "
              "queue_sink+queue_source(one thread, mock loop) aggregate chunk_stream ts_sync ts_check ts_align, and the chains skip>htons and setattr>delay>idem; other pipe types are outside the bound.")
@@ -401,7 +408,8 @@ CHECKS["C20"] = {
     "level_note": _CAT_NOTE,
     "jobs": {"quick": _cat_jobs("C20", "quick", pools=(0,)), "thorough": _cat_jobs("C20", "thorough")},
     "rule": "state = one operation history (no merging); non-trivial = histories in which at least one buffer reached a sink",
-    "bounds": _CAT_BOUNDS,
+    "bounds": {"quick": _CAT_BOUNDS["quick"] + "; for C20 pool depth 0 only and one operation less on rate_limit, ts_sync, time_limit, queue sink (two instances per history)",
+               "thorough": _CAT_BOUNDS["thorough"]},
     "assumptions": DEFAULT_ASSUME + ["genaux's initial getattr is an inline function (address not comparable across translation units): only values set by the harness are compared"],
     "job_timeout": {"quick": 300, "thorough": 1500},
 }
@@ -412,7 +420,7 @@ def _c12_jobs(tier):
     jobs = []
     for topo in (0, 1, 2, 3):
         for pool in (0, 2):
-            jobs.append(("c12_request", ["--topo", topo, "--pool", pool, "--nreq", 2, "--depth", 6 if q else 7, "--deadline", 75 if q else 840]))
+            jobs.append(("c12_request", ["--topo", topo, "--pool", pool, "--nreq", 2, "--depth", 6 if q else 8, "--deadline", 75 if q else 840]))
         jobs.append(("c12_request", ["--topo", topo, "--pool", 0, "--nreq", 3, "--depth", 5 if q else 6, "--deadline", 75 if q else 840]))
     return jobs
 
@@ -424,7 +432,7 @@ CHECKS["C12"] = {
     "jobs": {"quick": _c12_jobs("quick"), "thorough": _c12_jobs("thorough")},
     "rule": "state = one operation history (no merging); non-trivial = histories in which a provider held a registration or the head callback fired",
     "bounds": {"quick": "4 topologies x pool depth {0,2}: all sequences of up to 6 operations with 2 request types; 3 request types up to depth 5",
-               "thorough": "depth 7 (2 request types) and 6 (3 request types)"},
+               "thorough": "depth 8 (2 request types) and 6 (3 request types)"},
     "assumptions": DEFAULT_ASSUME + ["a requester unregisters its requests before releasing the pipe it registered them on (ownership rule)"],
     "job_timeout": {"quick": 300, "thorough": 1500},
 }
@@ -452,8 +460,8 @@ def _c06_jobs(tier):
     x("auourm", k - 1)
     x("auulurm", k - 1)
     if not q:
-        j("fiir", 1, 1, 0, 6)
-        j("fir", 1, 1, 0, 8)
+        j("fiir", 1, 1, 0, 5)
+        j("fir", 1, 1, 0, 6)
         j("fiiiir", 1, 1, 0, 4)
         j("fiixiir", 2, 1, 0, 4)
     return jobs
@@ -466,7 +474,7 @@ CHECKS["C06"] = {
     "jobs": {"quick": _c06_jobs("quick"), "thorough": _c06_jobs("thorough")},
     "rule": "one execution = one complete schedule; states = scheduling points visited; non-trivial = executions in which the consumer's loop ran while the producer was still in its script",
     "bounds": {"quick": "scripts fiir fiiir fiFir fiixir fillir x queue length 1-2, preemption bound 3; no-loop producer scripts bound 4; max_length 1; length 3 and fiFiir at bound 2; xfer scripts aurm aumr aulrm aoulrm amur at bound 3, auourm auulurm at bound 2 (command queue length 8)",
-               "thorough": "bound 4 (5 for no-loop), plus fiir at bound 6 and fir at bound 8; xfer scripts one preemption deeper"},
+               "thorough": "bound 4 (5 for no-loop), plus fiir at bound 5 and fir at bound 6; xfer scripts one preemption deeper"},
     "assumptions": DEFAULT_ASSUME + ["scheduling points: every uatomic_* on the queue / pipe refcounts, every simulated eventfd read/write, every loop iteration; sequentially consistent memory",
                                      "a loop callback that changes nothing visible is treated as a retry and yields to the other thread (fair scheduling)"],
     "job_timeout": {"quick": 300, "thorough": 1500},
